@@ -637,7 +637,7 @@ func genLogSites() string {
 							key, _ = strconv.Unquote(bl.Value)
 						}
 						for _, arg := range ce.Args[1:] {
-							sites = append(sites, classify(pkg, where, key, arg)...)
+							sites = append(sites, classify(pkg, fd, where, key, arg)...)
 						}
 						return true
 					}
@@ -649,7 +649,7 @@ func genLogSites() string {
 								continue
 							}
 						}
-						sites = append(sites, classify(pkg, where, "<"+se.Sel.Name+">", arg)...)
+						sites = append(sites, classify(pkg, fd, where, "<"+se.Sel.Name+">", arg)...)
 					}
 					return true
 				})
@@ -684,7 +684,106 @@ func genLogSites() string {
 	return sb.String()
 }
 
-func classify(pkg *packages.Package, where, key string, arg ast.Expr) []logSite {
+// flagKind names the ShouldLogCredentials expression of a wrapper literal semantically: a local variable is
+// resolved to its definition in the enclosing function; anything that reads a `.ShouldLogCredentials`
+// field (of the server's log config) is "server-flag", whatever the variable is called.
+func flagKind(pkg *packages.Package, fd *ast.FuncDecl, e ast.Expr, depth int) string {
+	mentions := func(x ast.Expr) bool {
+		found := false
+		ast.Inspect(x, func(n ast.Node) bool {
+			if se, ok := n.(*ast.SelectorExpr); ok && se.Sel.Name == "ShouldLogCredentials" {
+				found = true
+			}
+			return true
+		})
+		return found
+	}
+	if mentions(e) {
+		return "server-flag"
+	}
+	if id, ok := e.(*ast.Ident); ok && fd != nil {
+		if id.Name == "false" {
+			return "off"
+		}
+		kind := ""
+		ast.Inspect(fd, func(n ast.Node) bool {
+			as, ok := n.(*ast.AssignStmt)
+			if !ok || len(as.Lhs) != len(as.Rhs) {
+				return true
+			}
+			for i, l := range as.Lhs {
+				if li, ok := l.(*ast.Ident); ok && li.Name == id.Name {
+					if mentions(as.Rhs[i]) {
+						kind = "server-flag"
+					} else if kind == "" {
+						kind = "expr:" + exprText(as.Rhs[i])
+					}
+				}
+			}
+			return true
+		})
+		if kind != "" {
+			return kind
+		}
+		// a parameter of the enclosing function: the callers (same package) decide
+		if depth < 3 && fd.Type.Params != nil {
+			idx, pos := -1, 0
+			for _, f := range fd.Type.Params.List {
+				for _, n := range f.Names {
+					if n.Name == id.Name {
+						idx = pos
+					}
+					pos++
+				}
+			}
+			if idx >= 0 {
+				kinds := map[string]bool{}
+				for _, file := range pkg.Syntax {
+					for _, d := range file.Decls {
+						cfd, ok := d.(*ast.FuncDecl)
+						if !ok || cfd.Body == nil {
+							continue
+						}
+						ast.Inspect(cfd.Body, func(n ast.Node) bool {
+							ce, ok := n.(*ast.CallExpr)
+							if !ok || idx >= len(ce.Args) {
+								return true
+							}
+							name := ""
+							switch f := ce.Fun.(type) {
+							case *ast.Ident:
+								name = f.Name
+							case *ast.SelectorExpr:
+								name = f.Sel.Name
+							}
+							if name == fd.Name.Name {
+								kinds[flagKind(pkg, cfd, ce.Args[idx], depth+1)] = true
+							}
+							return true
+						})
+					}
+				}
+				if len(kinds) == 1 {
+					for k := range kinds {
+						return k
+					}
+				}
+				if len(kinds) > 1 {
+					var ks []string
+					for k := range kinds {
+						ks = append(ks, k)
+					}
+					sort.Strings(ks)
+					return "callers-disagree:" + strings.Join(ks, "|")
+				}
+			}
+		}
+		return "param:" + id.Name
+	}
+	return "expr:" + exprText(e)
+}
+
+func classify(pkg *packages.Package, fd *ast.FuncDecl, where, key string, arg ast.Expr) []logSite {
 	isWrapper := func(t types.Type) bool {
 		ts := types.TypeString(t, nil)
 		return strings.HasSuffix(ts, "caddyhttp.LoggableHTTPRequest") || strings.HasSuffix(ts, "caddyhttp.LoggableHTTPHeader")
@@ -696,7 +795,7 @@ func classify(pkg *packages.Package, where, key string, arg ast.Expr) []logSite 
 				kind = "wrapped"
 				for _, e := range cl.Elts {
 					if kv, ok := e.(*ast.KeyValueExpr); ok && exprText(kv.Key) == "ShouldLogCredentials" {
-						kind = "wrappedcred:" + exprText(kv.Value)
+						kind = "wrappedcred:" + flagKind(pkg, fd, kv.Value, 0)
 					}
 				}
 			}
